@@ -100,4 +100,39 @@ theorem C07_store_in_extent (t : Lay.Ty) (v : Lay.Val) (hw : t.WF) (hc : Lay.Con
   have h := C07_leaf_in_extent t v hw hc p lo w hl
   exact Lay.C11_scalar_never_overruns m (off + lo) w b (by omega)
 
+/-- **end to end, setter**: storing the `w` bytes of a value at the address the generated setter computes (object address plus the
+offset of its emitted statements, `C02_path_address`) makes a view of the WHOLE enclosing object read the value with exactly the
+addressed element replaced (`updAt`) - every other field and item at every level, every string, shape and size unchanged -
+for every reference-free type, every selector path to a scalar element and every memory holding the written object -/
+theorem C07_setter_sets_element (sels : List Lay.Sel) (tc : Ty) (t : Lay.Ty) (v : Lay.Val) (ps : List Part) (ix p : List Nat)
+    (lo w : Nat) (htl : Lay.toLay tc = some t) (hwp : t.WFP) (hc : Lay.Conf t v) (hs : Lay.vsize t v < 2 ^ 64)
+    (hcp : Lay.cparts tc sels = some (ps, ix)) (hlp : Lay.lpath t v sels = some p) (hleaf : Lay.leafAt t v p = some (lo, w))
+    (m0 : MemS.Mem) (off : Nat) (hb : off + Lay.vsize t v ≤ m0.length) (m' : MemS.Mem)
+    (hag : Lay.Agree m' (Lay.apply (Lay.shift off (Lay.patchesD t v)) m0) off (off + Lay.vsize t v))
+    (hlen : m'.length = m0.length) (b : Nat) (hbv : b < 256 ^ w) :
+    ∃ v', Lay.updAt t v p b = some v' ∧ Lay.Conf t v' ∧ Lay.vsize t v' = Lay.vsize t v ∧
+      Lay.readD t (Lay.setScalar m'
+        ((off : Int) + execAll (Lay.ldM m') (off : Int) (ix.map Int.ofNat) 0 (genStmts ps 0 0)).toNat w b) off = v'.norm := by
+  rw [C02_path_address sels tc t v ps ix p lo w htl hwp hc hs hcp hlp hleaf m0 off hb m' hag]
+  obtain ⟨v', h1, h2, h3, _, h5⟩ := Lay.set_leaf_rt t v (Lay.wfp_wf t hwp) hc hs m0 off hb m' hag hlen p lo w b hleaf hbv
+  refine ⟨v', h1, h2, h3, ?_⟩
+  rw [← Int.natCast_add, Int.toNat_natCast]
+  exact h5
+
+/-! non-vacuity of the end-to-end theorems: `S {a: Int64, s: String, m: Int32[:, 3] in F order}` holding `{7, "hi", 2 x 3}` at offset 16
+of a 160-byte buffer: the hypotheses hold, the selector path `m[1, 2]` is the layout path `[2, 5]`, the element is at object offset 92,
+and that is what the emitted statements compute from the object's address and the index arguments 1, 2 -/
+example :
+    let tc : Ty := .struct "S" [("a", .scalar .i64), ("s", .string), ("m", .array (.scalar .i32) [none, some 3] [1, 0])]
+    let t : Lay.Ty := .struct [.scalar 8, .string, .array (.scalar 4) [none, some 3] [1, 0]]
+    let v : Lay.Val := .struct [.bits 7, .str [104, 105], .arr [2, 3] [.bits 10, .bits 11, .bits 12, .bits 13, .bits 14, .bits 15]]
+    let img : MemS.Mem := Lay.apply (Lay.shift 16 (Lay.patchesD t v)) (List.replicate 160 0)
+    Lay.lpath t v [.field 2, .item [1, 2]] = some [2, 5] ∧ Lay.leafAt t v [2, 5] = some (92, 4) ∧
+    (Lay.cparts tc [.field 2, .item [1, 2]]).map (fun x => execAll (Lay.ldM img) 16 (x.2.map Int.ofNat) 0 (genStmts x.1 0 0)) = some 92 ∧
+    MemS.fromLE (MemS.readAt img (16 + 92) 4) = 15 := by
+  decide +kernel
+
+example : Lay.toLay (.struct "S" [("a", .scalar .i64), ("s", .string), ("m", .array (.scalar .i32) [none, some 3] [1, 0])]) =
+    some (.struct [.scalar 8, .string, .array (.scalar 4) [none, some 3] [1, 0]]) := rfl
+
 end CGen
